@@ -29,8 +29,8 @@ def job(j):
                                   "requests": [{"op": r["op"], "variables": execreplay.variables_py(r["given"]), "overlay": r["overlay"],
                                                 "expected_data": render.value_py(r["data"])} for r in rec["reqs"]],
                                   "interleaving": [[h["rid"], h["p"]] for h in rec["hist"]]})
-        if mm and len(st["viol"]) < 50:
-            st["viol"].append(({"kind": "multi-mismatch", "config": cfg, "first": mm[0][:140]}, {"case": rec, "mismatches": mm}))
+        if mm and len(st["viol"]) < 400:
+            genrun.add_viol(st["viol"], ({"kind": "multi-mismatch", "config": cfg, "first": mm[0][:140]}, {"case": rec, "mismatches": mm}))
 
     res = tlc.run("MC_multi.tla", cfg, on_line=on_line, workers=1, timeout=3000)
     return {"job": j, "tlc": [genrun.tlc_summary(cfg, res)], "evaluations": st["n"], "distinct": list(st["distinct"]),
